@@ -229,3 +229,32 @@ def rule_examples(c, prog, R="C03.gram"):
         else:
             c.violation(R, "example|CFrame-positions", f"docs/binary.md, CFrame: the two-value example gives positions {want[:3]} and {want[3:]}, but its Position array `{mp.group(1)}`, read as three interleaved arrays of Roblox-format floats, holds {got[:3] if got else None} and {got[3:] if got else None}", "docs/binary.md", instance="example:CFrame-positions")
     c.floor(R, n, 2, "worked examples of docs/binary.md decoded from its own prose")
+
+
+def rule_carrier(c, prog, R="C03.gram"):
+    """type id 0x01 carries more than text: the String column writer stores BinaryString-like values (attribute blobs,
+    tag lists, material colours, arbitrary byte strings) under it with the byte writer.  A decoder written from the
+    document follows what the String section says about the bytes; if that is `UTF-8` without qualification it refuses,
+    or cannot represent, files the writer produces for ordinary DOMs."""
+    from sa import tables
+    efn, em, earms = common.binary_encoder_arms(prog)
+    raw = set()
+    for n in core.walk(earms["String"]["body"]):
+        if n.get("k") == "Match":
+            for a in n["arms"]:
+                byte_writer = any(x.get("k") == "MethodCall" and x["m"] == "write_binary_string" for x in core.walk(a["body"]))
+                for alt in tables.pat_alts(a["pat"]):
+                    if alt[0] == "ctor" and byte_writer:
+                        raw.add(alt[1].rsplit("::", 1)[-1])
+    doc = spec.type_ids("binary.md")
+    body = doc.get("String", (None, ""))[1]
+    if not body:
+        raise core.AnchorMissing("docs/binary.md: String section")
+    inst = "carrier:String"
+    claims_text = re.search(r"UTF-?8", body) is not None
+    qualified = re.search(r"BinaryString|arbitrary|opaque|raw bytes|binary data|not (necessarily|always|guaranteed|required)", body, re.I) is not None
+    c.sample({"rule": R, "string_column_byte_variants": sorted(raw), "doc_claims_utf8": claims_text, "doc_qualifies": qualified})
+    if raw and claims_text and not qualified:
+        c.violation(R, "carrier|String", f"docs/binary.md, String (type id 0x01) says the values are UTF-8 encoded and names no exception; the String column writer stores {', '.join(sorted(raw))} under that id with the byte writer (an attribute blob such as 01 00 00 00 05 00 00 00 'Speed' 06 … f8 3f is not UTF-8): a decoder written from the document rejects, or cannot represent exactly, PROP chunks written for ordinary DOMs", "docs/binary.md", instance=inst)
+    else:
+        c.ok(R, inst)
